@@ -271,6 +271,8 @@ class SimChannel:
         self.burst = BURST_WINDOW.get(sim.profile, 0.0) if kind == 'hci' else 0.0
         self._batch: list | None = None
         self._batch_time = 0.0
+        self._stall_until = -1.0
+        self._stalled: list = []
 
     def send(self, item) -> None:
         if self.closed:
@@ -292,6 +294,11 @@ class SimChannel:
         now = sim.loop.time()
         d = sim.delay(self.name, self.kind, n, self.node)
         t = max(self.last, now + d)
+        if now < self._stall_until:
+            # the receiver is not reading: everything piles up and is read in one go when it resumes
+            self.inflight += 1
+            self._stalled.append(item)
+            return
         if self.burst:
             # coalesce: everything that would arrive before the open batch is flushed joins it; order is preserved
             self.inflight += 1
@@ -309,6 +316,25 @@ class SimChannel:
         else:
             self.inflight += 1
             sim.loop.sim_at(t, self._deliver, item, True)
+
+    def stall(self, duration: float) -> None:
+        """Fault: the receiver stops reading for `duration` seconds; what is sent meanwhile is delivered in ONE burst afterwards."""
+        now = self.sim.loop.time()
+        until = max(now + duration, self.last)
+        if until <= self._stall_until:
+            return
+        self._stall_until = until
+        self.last = until
+        self.sim.loop.sim_at(until, self._release, until)
+
+    def _release(self, until: float) -> None:
+        if until != self._stall_until:
+            return
+        items, self._stalled = self._stalled, []
+        if len(items) > 1:
+            self.sim.probes['hci_packets_delivered_in_one_burst'] += len(items)
+        for item in items:
+            self._deliver(item, True)
 
     def _flush(self, batch: list) -> None:
         if batch is self._batch:
